@@ -191,6 +191,22 @@ theorem gen_fromWAL_loop (lock prev commit : Nat) (m : List Nat) :
   · rfl
 
 
+/-- Follow-mode restore applies one LTX file with `Db.apply` (/repo/replica.go
+    `applyLTXFile`: write the pages, then resize the file to `Commit` pages — the
+    resize also *extends*).  The follower then has exactly `commit` pages and its
+    lock page is present and empty whenever it lies inside the committed range,
+    although no file ever carries it — in particular when the lock page is the
+    last page (`f.commit = lock`). -/
+theorem follow_apply_lock_zero {lock : Nat} (d : Db) (f : Ltx) (hok : PagesOk lock f) (hd : d.page lock = 0) :
+    (d.apply f).size = f.commit ∧ (d.apply f).page lock = 0 ∧
+    ∀ p, p ≠ lock → p ≤ f.commit → (d.apply f).page p = (f.look p).getD (d.page p) := by
+  refine ⟨rfl, ?_, ?_⟩
+  · rw [apply_page]; split
+    · rw [hok.2]; exact hd
+    · rfl
+  · intro p _ hp
+    rw [apply_page]; simp [hp]
+
 /-- Non-vacuity: page size 65536, growth from 16383 to 16387 pages across the lock page 16385. -/
 example : emittedFromWAL (lockPgno 65536) 16383 16387 [2, 16384] = [2, 16384, 16386, 16387] := by decide
 
